@@ -178,6 +178,9 @@ type Broker struct {
 	Rack     string
 	Up       bool
 	Versions map[int16][2]int16 // advertised [min,max] per api key
+	// Unlisted: api keys the broker serves (in the range given in Versions)
+	// but leaves out of its ApiVersions answer
+	Unlisted map[int16]bool
 }
 
 func (b *Broker) Addr() string { return fmt.Sprintf("%s:%d", b.Host, b.Port) }
@@ -878,6 +881,9 @@ func (c *Cluster) apiVersions(b *Broker, r *Req) rc.Msg {
 	}
 	sort.Ints(ks)
 	for _, k := range ks {
+		if b.Unlisted[int16(k)] {
+			continue
+		}
 		v := b.Versions[int16(k)]
 		keys = append(keys, rc.Msg{"api_key": int16(k), "min_version": v[0], "max_version": v[1]})
 	}
